@@ -85,6 +85,7 @@ def run(ck):
         eng, fp = cfgpaths.summarise(tu, 'eav_free')
         w3 = []
         for p in fp:
+            if p.passed('(eav == NULL)', True) or p.passed('eav', False) or p.passed('(eav != NULL)', False) or p.passed('(!eav)', True): continue      # a guard against a NULL object: nothing to release
             fr = [e for e in p.calls('eav_result_free')]
             s = p.last_set('eav->result')
             # either order: free(eav->result) then clear the field, or keep the old pointer, clear the field, free the old pointer
